@@ -358,6 +358,12 @@ func profileMain(args []string) {
 			}
 		}
 	}
+	// step profiles whose first level is fractional and whose last level is exactly from + k*step: the level is
+	// accumulated in float64 (0.12+1+...+1 = 8.120000000000001), the comparison with `to` must not lose the last level
+	for _, ft := range [][3]int{{120, 8120, 1}, {30, 2030, 1}, {60, 4060, 2}, {1150, 3150, 1}, {6, 2006, 1}, {128, 10128, 5}, {90, 20090, 10}} {
+		specs = append(specs, profSpec{Kind: "step", FromM: ft[0], ToM: ft[1], Step: ft[2], DurNs: int64(10 * time.Second)},
+			profSpec{Kind: "step", FromM: ft[0], ToM: ft[1], Step: ft[2], DurNs: int64(1500 * time.Millisecond)})
+	}
 	// durations that are not a whole number of milliseconds (or microseconds), at rates high enough that the
 	// sub-millisecond part is worth whole operations
 	for _, d := range []time.Duration{1500 * time.Microsecond, 250999 * time.Microsecond, 1234567 * time.Nanosecond, 7654321 * time.Nanosecond, 1000999999 * time.Nanosecond} {
